@@ -7,7 +7,7 @@
    Spec:  C03spec.subst (designated ...) = exactly the designated mapping values /
    sequence elements replaced, everything else rebuilt untouched. *)
 From Coq Require Import List ZArith NArith Bool String.
-From YP Require Import Outcome PyStr PyVal Doc Searches Mutate C04spec C03spec C03set.
+From YP Require Import Outcome PyStr PyVal Doc Searches Mutate Create History C04spec C03spec C03hist C03set C03erase C03history.
 Import ListNotations.
 Open Scope string_scope.
 Open Scope list_scope.
@@ -38,19 +38,30 @@ Theorem C03_set_exact : forall lit fl p value fmt vo d next d' next' o pn c,
 Proof. exact update_exact. Qed.
 Print Assumptions C03_set_exact.
 
-(* ... and that new node holds the converted new value, no tag, and - when a
-   ruamel wrapper was built - a fresh identity and the anchor of the old node
-   (so aliases keep following it). *)
+(* ... and that new node holds the converted new value, no tag other than the
+   ScalarBoolean marker of Doc.is_sbool, and - when a ruamel wrapper was built -
+   a fresh identity and the anchor of the old node (so aliases keep following
+   it), whatever the class of the old node (ScalarBoolean `&x true` included). *)
 Theorem C03_new_node_value : forall lit fl src value fmt fresh vo new,
   make_new_node lit fl src value fmt fresh vo = ROk new ->
   exists nn, conv lit fl fmt value = ROk nn /\
     exists i, new = NLeaf i (nn_val nn) /\
-      tag i = None /\
+      tag i = (if nn_wrapped nn then nn_tag nn else None) /\
       (nn_wrapped nn = true ->
          oid i = fresh /\ has_anchor_attr i = true /\
          anchor i = match src with Some s => nonempty_anchor s | None => None end).
 Proof. exact make_new_node_shape. Qed.
 Print Assumptions C03_new_node_value.
+
+(* The new node is a ScalarBoolean (the int subclass, Doc.is_sbool) exactly when
+   a boolean conversion built it (format BOOLEAN, or DEFAULT with a value that
+   literal_eval reads as a bool); every other new node carries no tag. *)
+Theorem C03_new_node_sbool : forall lit fl src value fmt fresh vo new nn,
+  make_new_node lit fl src value fmt fresh vo = ROk new ->
+  conv lit fl fmt value = ROk nn ->
+  is_sbool new = nn_sbool nn.
+Proof. exact make_new_node_sbool. Qed.
+Print Assumptions C03_new_node_sbool.
 
 (* What the spec means, pointwise. *)
 Theorem C03_subst_seq_pointwise : forall P repl i els n x,
@@ -86,6 +97,57 @@ Theorem C03_failure_is_clean : forall lit fl value vo acts st st' e,
     run_actions lit fl value vo done st = SDone st' /\ apply_action lit fl value vo a st' = RErr e.
 Proof. exact run_actions_failed_state. Qed.
 Print Assumptions C03_failure_is_clean.
+
+(* ======== sequences of edits: chains of changes and whole histories ======== *)
+
+(* Doc.erase (identities, anchors, tags forgotten) turns the identity-based
+   substitution into a replacement AT LOCATIONS of plain data: the locations
+   are the matched position and the positions of its true aliases
+   (C03hist.mask_subst (designated ...)). *)
+Theorem C03_erase_subst : forall P repl d,
+  erase (subst P repl d) = dsubst (mask_subst P d) (erase repl) (erase d).
+Proof. exact erase_subst. Qed.
+Print Assumptions C03_erase_subst.
+
+(* THE CHAIN (composition of C03_set_exact + C03_wf_preserved): after any
+   sequence of changes of one set_value call - every change under the hypotheses
+   of C03_set_exact, evaluated on the document that change meets (acts_ok,
+   computable) - the document is the successive substitution: every matched node
+   and every alias of a matched anchored node holds the new value, everything
+   else is as before; on plain data one replacement-at-locations per change; and
+   the invariant still holds for the next edit.  Guard acts_ok excludes the known
+   finding F24 (alias used as a key) and [name()] renames. *)
+Theorem C03_chain_partial : forall lit fl value vo acts st st',
+  wf_attr (fst st) = true -> acts_ok lit fl value vo acts st = true ->
+  run_actions lit fl value vo acts st = SDone st' ->
+  psteps (abs_actions lit fl value vo acts st) (erase (fst st)) (erase (fst st')) /\ wf_attr (fst st') = true.
+Proof. exact actions_refine. Qed.
+Print Assumptions C03_chain_partial.
+
+(* THE HISTORY THEOREM.  For every list of operations (History.hop: Set /
+   Create / Delete, each the model of the corresponding Processor call run on the
+   document the previous one left) that completes, each operation under its
+   guard (hist_ok, computable along the model's own run: the invariants wf_attr /
+   wf_doc hold where the operation starts, C03_set_exact's hypotheses for every
+   change, C04's guard for a delete), the model's run REFINES the plain-data
+   model over Doc.erase: Set = replacements at locations (dsubst), Delete = a
+   removal at locations (dprune), Create = children appended (dembeds) followed by
+   a replacement at the yielded location.  Guards exclude the known findings F24,
+   F15 and [name()] renames (hence _partial). *)
+Theorem C03_history_partial : forall lit fl ops d k d',
+  hist_ok lit fl ops d = true -> run_ops lit fl ops d k = HDone d' ->
+  psteps (abs_ops lit fl ops d) (erase d) (erase d').
+Proof. exact history_refines. Qed.
+Print Assumptions C03_history_partial.
+
+(* ... and a history that fails stops at the failing operation; what was done before refines the plain-data run *)
+Theorem C03_history_failed_prefix : forall lit fl ops d k d' e n,
+  hist_ok lit fl ops d = true -> run_ops lit fl ops d k = HFailed d' e n ->
+  exists done rest op d0, ops = done ++ op :: rest /\ n = (k + List.length done)%nat /\
+    run_ops lit fl done d k = HDone d0 /\ psteps (abs_ops lit fl done d) (erase d) (erase d0) /\
+    run_op lit fl op d0 = Failed d' e.
+Proof. exact history_failed_prefix. Qed.
+Print Assumptions C03_history_failed_prefix.
 
 (* ---- concrete documents ---- *)
 Definition pl (o : N) : info := mkinfo o None false None.
@@ -123,6 +185,25 @@ Example C03_key_spelled_like_value_nonvacuous :
   = ROk (NMap (ct 0) [ (sk 1 "a", NLeaf (mkinfo 4 None true None) (PStr "q")); (sk 2 "b", sk 3 "x") ], 5%N).
 Proof. vm_compute. repeat split. Qed.
 
+(* non-vacuity of the history theorem: on {k: &a x, l: [*a], m: *a}
+   set k := new (three locations change), delete l[0], create l[1].z := 7 (pads l[0], builds {z: 7}), set m := 5 *)
+Definition hist23 : list hop :=
+  [ HSet [CNode (mkpc (Some 0%N) (PStr "k")) false] (PStr "new") FBare None;
+    HDelete [CNode (mkpc (Some 4%N) (PInt 0)) false];
+    HCreate [SKey "l" (Some 3%N); SIdx 1; SKey "z" None] (PInt 7) FInt None;
+    HSet [CNode (mkpc (Some 0%N) (PStr "m")) false] (PInt 5) FInt None ].
+Example C03_history_nonvacuous :
+  hist_ok no_lit no_fl hist23 doc23 = true /\
+  match run_ops no_lit no_fl hist23 doc23 0 with
+  | HDone d' =>
+      erase d' = DMap [ (PStr "k", DLeaf (PInt 5));
+                        (PStr "l", DSeq [DMap []; DMap [ (PStr "z", DLeaf (PInt 7)) ]]);
+                        (PStr "m", DLeaf (PInt 5)) ]
+  | HFailed _ _ _ => False
+  end /\
+  List.length (abs_ops no_lit no_fl hist23 doc23) = 5%nat.
+Proof. vm_compute. repeat split. Qed.
+
 (* ---- known finding F24: without keys_sets_clean the statement is false ----
    {m: {foo: bar, &n x: a}, c: *n} set c := foo.  The alias of the changed
    node is used as a KEY of m; renaming it onto the existing key foo drops an
@@ -144,3 +225,19 @@ Proof.
   vm_compute. discriminate.
 Qed.
 Print Assumptions C03_alias_key_refuted.
+
+(* ... and so is the history statement without its guard: the same single-step history does not refine the
+   plain-data replacement (an entry of m is lost) *)
+Definition hist24 : list hop := [ HSet [CNode (mkpc (Some 0%N) (PStr "c")) false] (PStr "foo") FBare None ].
+Theorem C03_history_refuted : exists ops d d',
+  run_ops no_lit no_fl ops d 0 = HDone d' /\
+  ~ psteps (abs_ops no_lit no_fl ops d) (erase d) (erase d').
+Proof.
+  exists hist24, doc24. eexists. split.
+  - vm_compute. reflexivity.
+  - intro Hp.
+    assert (E : exists m v, abs_ops no_lit no_fl hist24 doc24 = [PReplace m v]) by (eexists; eexists; vm_compute; reflexivity).
+    destruct E as [m [v E]]. rewrite E in Hp. apply psteps_single_replace in Hp.
+    vm_compute in E. inversion E; subst m v. vm_compute in Hp. discriminate.
+Qed.
+Print Assumptions C03_history_refuted.
